@@ -128,7 +128,9 @@ func (m *Model) Lookup(k string, sc Scope) (*Blob, Class) {
 		return nil, NotExist
 	}
 	if (b.Complete && sc == OnlyIncomplete) || (!b.Complete && sc == OnlyComplete) {
-		m.touch(b)
+		// A scoped view hides the blob: the refused call must have no effect on
+		// it, in particular it is not a use (strengthened after seeded change
+		// seeded/C07: out-of-scope Open refreshed the LRU position).
 		return nil, OutOfScope
 	}
 	return b, OK
